@@ -63,10 +63,22 @@ fn situation(kind: u8) -> Sit {
             let s = whole.slice(1..3);
             Sit { s, other: Some(whole), view: buf[1..3].to_vec(), other_view: buf.to_vec() }
         }
-        _ => {
+        3 => {
             let s = whole.slice(1..4);
             drop(whole);
             Sit { s, other: None, view: buf[1..4].to_vec(), other_view: Vec::new() }
+        }
+        4 => {
+            // uniquely owned window with hidden elements on BOTH sides
+            let s = whole.slice(1..3);
+            drop(whole);
+            Sit { s, other: None, view: buf[1..3].to_vec(), other_view: Vec::new() }
+        }
+        _ => {
+            // uniquely owned prefix window (hidden tail only)
+            let s = whole.slice(0..2);
+            drop(whole);
+            Sit { s, other: None, view: buf[0..2].to_vec(), other_view: Vec::new() }
         }
     }
 }
